@@ -101,6 +101,10 @@ def base_case(r, method, N, D, dcls, kcls, data, nm=None, em=None):
         c["theta"] = r.choice(["0", "1/2", "1/2", "1/4"])
     if method in ("lmds", "lisomap"):
         c["ratio"] = r.choice(["1/2", "1", "3/%d" % max(N, 1), "3/4", "1/4"])
+    if method in ("dm", "le", "lpp"):
+        # a kernel width commensurate with the data (coordinates in (-4, 4)): with the default width 1 the heat /
+        # diffusion matrices are numerically diagonal and finiteness becomes a matter of float underflow
+        c["width"] = r.choice(["64", "16", "256"])
     if method == "ms":
         c["maxit"] = r.choice([3, 10])
     if method == "fa":
@@ -178,6 +182,8 @@ def product_cases(r, tier):
             N = r.choice([1, 2, 3]) if r.chance(1, 10) else r.choice([4, 5, 8, 8, 17, 17, 40])
             data = r.choice(DATA + ["generic"])
             c = base_case(r, m, N, r.choice(DS), r.choice(D_CLASSES), r.choice(K_CLASSES), data)
+            if estimated_seconds(c) > 2.0:      # HLLE with d ~ N = 40 takes half a minute: thorough tier only
+                c = base_case(r, m, 17, int(c["D"]), r.choice(D_CLASSES), r.choice(K_CLASSES), data)
             cases.append(c)
         cases += boundary_cases(r, 110)
         return cases
@@ -434,6 +440,18 @@ def shrink(ctx, binary, c, key):
 
 
 # ----------------------------------------------------------------------------- correspondence
+def estimated_seconds(c):
+    """rough cost of the legitimately expensive configurations on the -O0 sanitizer builds (HLLE's Gram-Schmidt over
+    1 + d + d(d+1)/2 columns per neighbourhood; t-SNE's 1000 gradient steps)"""
+    N, d, k = int(c["N"]), int(c.get("d", 2)), int(c.get("k", 5))
+    if c["method"] == "hlle" and 1 <= d < N and 3 <= k < N:
+        w = 1 + d + d * (d + 1) // 2
+        return N * max(k, min(N - 1, d)) * w * w / 3.0e7
+    if c["method"] == "tsne" and d >= 1:
+        return N * N * max(d, 2) / 1.5e4
+    return 0.0
+
+
 def judge(ctx, plan, label):
     """plan: [(build name, binary, [case dict])].  All (build, case) pairs share one pool of JOBS processes.
     Failures are collected in ctx.c01_failures and reported by report_failures()."""
@@ -442,7 +460,7 @@ def judge(ctx, plan, label):
     for bname, binary, cases in plan:
         for i, c in enumerate(cases):
             c["id"] = i
-            c.setdefault("limit", limit)
+            c.setdefault("limit", int(max(limit, 4 * estimated_seconds(c) + 5)))
         lines = [case_line(c) for c in cases]
         if not lines:
             continue
